@@ -91,6 +91,9 @@ fn main() {
         Some("panic-child-handover") => {
             props::pipe::panic_child_handover(args[2].parse().unwrap(), args[3].parse().unwrap(), args[4].parse().unwrap());
         }
+        Some("cpu-child") => {
+            props::pipe::cpu_child(args[2].parse().unwrap(), args[3].parse().unwrap());
+        }
         Some("many-child") => {
             props::pipe::many_child(args[2].parse().unwrap(), args[3].parse().unwrap(), args[4].parse().unwrap());
         }
